@@ -295,6 +295,10 @@ def g_constants(C):
     uci = read("src/uci.rs")
     m = need("uci.len_guard", r"if game\.len\(\) >= (\d+) \{", uci)
     len_guard = int(m.group(1))
+    auto = read("src/autoplay.rs")
+    m = need("autoplay.len_guard", r"if game\.len\(\) >= (\d+) \{\s*break;", auto)
+    auto_len_guard = int(m.group(1))
+    need("autoplay.loop", r"get_best_move_until_stop\(&game, &mut cache, &search_is_running, None\)", auto)
     m = need("uci.FRACTION", r"const FRACTION_OF_TOTAL_TIME: f64 = ([\d.]+);", uci)
     fraction = m.group(1)
     m = need("uci.LATENCY", r"const LATENCY_MS_COMPENSATE: u64 = (\d+);", uci)
@@ -322,7 +326,7 @@ def g_constants(C):
                  "len_guard": len_guard, "tt": tt_cap, "max_depth": max_depth_const}
     C["search"] = {"mate": mate, "exit_hi": exit_hi, "exit_lo": exit_lo, "full_window": int(full_window[0])}
     C["time"] = {"fraction": fraction, "latency": latency, "cut": cut}
-    return dict(state_cap=state_cap, moves_cap=moves_cap, killer_len=killer_len, history_len=history_len, len_guard=len_guard, max_depth_const=max_depth_const, mate=mate, exit_hi=exit_hi, exit_lo=exit_lo, full_window=full_window, latency=latency, cut=cut, fraction=fraction, tt_cap=tt_cap)
+    return dict(state_cap=state_cap, moves_cap=moves_cap, killer_len=killer_len, history_len=history_len, len_guard=len_guard, max_depth_const=max_depth_const, mate=mate, exit_hi=exit_hi, exit_lo=exit_lo, full_window=full_window, latency=latency, cut=cut, fraction=fraction, tt_cap=tt_cap, auto_len_guard=auto_len_guard)
 
 
 def g_unsafe(C):
@@ -421,6 +425,7 @@ def emit(V, C, broken):
     killer_len = V['killer_len']
     history_len = V['history_len']
     len_guard = V['len_guard']
+    auto_len_guard = V.get('auto_len_guard', V['len_guard'])
     max_depth_const = V['max_depth_const']
     mate = V['mate']
     exit_hi = V['exit_hi']
@@ -527,6 +532,8 @@ def movesCap : Nat := {moves_cap}
 def killerLen : Nat := {killer_len}
 def historyLen : Nat := {history_len}
 def lenGuard : Nat := {len_guard}
+/-- the guard of the self-play loop (autoplay.rs) -/
+def autoLenGuard : Nat := {auto_len_guard}
 def maxDepth : Nat := {max_depth_const}
 
 -- search constants
@@ -589,7 +596,7 @@ ITEM_PROPS = [
     ("piece.as_char_ascii", ["C11"]), ("piece.from_char_ascii", ["C17"]), ("piece.as_str_pgn", ["C20"]),
     ("piece.as_char", ["C20"]), ("piece.letters", ["C11", "C17", "C20"]),
     ("move.uci_notation", ["C12"]), ("move.pgn_notation", ["C20"]), ("move.promo_letters", ["C12", "C20"]),
-    ("mod.state_cap", ["C15"]), ("mod.moves_cap", ["C15"]), ("uci.len_guard", ["C15", "C12"]),
+    ("mod.state_cap", ["C15"]), ("mod.moves_cap", ["C15"]), ("uci.len_guard", ["C15", "C12"]), ("autoplay.", ["C15"]),
     ("search.killer_len", ["C08", "C15"]), ("search.MAX_DEPTH", ["C08", "C15"]), ("search.limit", ["C08"]),
     ("search.loop", ["C08"]), ("search.exit_at_limit", ["C08"]), ("search.history_len", ["C08", "C15"]),
     ("search.mate", ["C10"]), ("search.exit_", ["C10", "C08"]), ("search.full_window", ["C09"]), ("search.root_window", ["C09"]),
